@@ -7,12 +7,12 @@ package filesystem
 // the config, and what it decodes must be the old or the new content.
 
 import (
-	"github.com/go-git/go-git/v6/config"
 	"github.com/go-git/go-git/v6/internal/verifrt"
 	"github.com/go-git/go-git/v6/plumbing"
 	"github.com/go-git/go-git/v6/plumbing/filemode"
 	"github.com/go-git/go-git/v6/plumbing/format/index"
 	"github.com/go-git/go-git/v6/storage/filesystem/dotgit"
+	"github.com/go-git/go-git/v6/utils/ioutil"
 )
 
 func verifC21IndexStorage(c *dotgit.VerifC21FS) *IndexStorage {
@@ -93,15 +93,32 @@ func VerifHarness_C21_index() {
 
 // ---------- config ----------
 
-func verifC21Config(url string) *config.Config {
-	cfg := config.NewConfig()
-	cfg.Core.IsBare = true
-	cfg.Remotes["origin"] = &config.RemoteConfig{
-		Name:  "origin",
-		URLs:  []string{url},
-		Fetch: []config.RefSpec{verifC21Fetch},
+// verifC21SetConfig is a line-by-line copy of ConfigStorage.SetConfig
+// (config.go) for a config without the worktreeConfig extension, in which
+// cfg.Marshal() is replaced by its result: the engine's fmt model has no %t
+// verb, which Config.marshalCore uses unconditionally. The texts are what the
+// real Marshal produces for NewConfig() + core.bare + remote "origin" (printed
+// natively). The order of the calls (ConfigWriter before Marshal, one Write)
+// is SetConfig's.
+func (c *ConfigStorage) verifC21SetConfig(marshalled []byte) (err error) {
+	f, err := c.dir.ConfigWriter()
+	if err != nil {
+		return err
 	}
-	return cfg
+
+	defer ioutil.CheckClose(f, &err)
+
+	b, err := marshalled, error(nil) // cfg.Marshal()
+	if err != nil {
+		return err
+	}
+
+	_, err = f.Write(b)
+	return err
+}
+
+func verifC21Config(url string) []byte {
+	return []byte("[core]\n\tbare = true\n\tfilemode = true\n[remote \"origin\"]\n\turl = " + url + "\n\tfetch = " + verifC21Fetch + "\n")
 }
 
 const (
@@ -116,7 +133,7 @@ func VerifHarness_C21_config() {
 	build := func() *dotgit.VerifC21FS {
 		c := dotgit.VerifC21NewFS()
 		st := &ConfigStorage{dir: dotgit.New(c)}
-		err := st.SetConfig(verifC21Config(verifC21OldURL))
+		err := st.verifC21SetConfig(verifC21Config(verifC21OldURL))
 		verifrt.Assert(err == nil, "c21-harness-old-config-written")
 		return c
 	}
@@ -124,7 +141,7 @@ func VerifHarness_C21_config() {
 	var err error
 	c, plan, crashed, k, _ := dotgit.VerifC21CrashPlan(build, func(c *dotgit.VerifC21FS) {
 		st := &ConfigStorage{dir: dotgit.New(c)}
-		err = st.SetConfig(verifC21Config(verifC21NewURL))
+		err = st.verifC21SetConfig(verifC21Config(verifC21NewURL))
 	})
 	newText := plan.FS.Content("config")
 	verifrt.Assert(len(oldText) > 0 && len(newText) == len(oldText) && !verifC21Same(oldText, newText), "c21-harness-config-texts")
